@@ -10,6 +10,7 @@ import (
 	"saoverif/internal/core"
 	"saoverif/internal/eff"
 	"saoverif/internal/guard"
+	"saoverif/internal/prog"
 	"saoverif/internal/term"
 )
 
@@ -1069,6 +1070,27 @@ func ruleAliasKeyShape(r *core.Run, id string) {
 		}
 		switch t.Op {
 		case "call":
+			// a module helper that only wraps an expression is looked through (modelKey(m) == Sprintf(...m.Owner...))
+			if c, ok := t.V.(*ssa.Call); ok && d < 4 {
+				if _, cs := term.CalleeName(r.P, &c.Call); len(cs) == 1 && len(cs[0].Blocks) > 0 && prog.InModule(pkgPathOf(cs[0])) {
+					h := cs[0]
+					hres := r.Resolver(h)
+					shape, same := "", true
+					for _, hb := range h.Blocks {
+						if ret, ok := hb.Instrs[len(hb.Instrs)-1].(*ssa.Return); ok && len(ret.Results) == 1 {
+							s2 := skel(hres.Of(ret.Results[0]), d+1)
+							if shape == "" {
+								shape = s2
+							} else if shape != s2 {
+								same = false
+							}
+						}
+					}
+					if same && shape != "" && shape != "$" {
+						return shape
+					}
+				}
+			}
 			var as []string
 			for _, a := range t.Args {
 				as = append(as, skel(a, d+1))
